@@ -38,6 +38,7 @@ func init() {
 			{ID: "R18b", Floor: 3, Doc: "create wiring: version switch, Finalize before ReplaceRootsInFile, root provenance, placeholder shape", Run: ruleR18b},
 			{ID: "R18c", Floor: 1, Doc: "stdin read storage: Get does not mutate the block map", Run: ruleR18c},
 			{ID: "R18d", Floor: 4, Doc: "sanitiser root = EvalSymlinks(output dir) (= R17b)", Run: ruleR17b},
+			{ID: "R18f", Floor: 1, Doc: "the extractor never removes, renames or truncates what it created", Run: ruleR18f},
 			{ID: "R18e", Floor: 1, Doc: "symlink target verbatim", Run: ruleR18e},
 		},
 	})
@@ -329,4 +330,31 @@ func ruleR18e(c *Ctx, r *Report) {
 		}
 	}
 	r.Check(bad == "", key, c.Pos(fn.Pos()), "os.Symlink(string(stored bytes), sanitised path)", bad)
+}
+
+func ruleR18f(c *Ctx, r *Report) {
+	scope, err := extractionScope(c)
+	if err != nil {
+		r.InfraFail("%v", err)
+		return
+	}
+	key := "no-deletion@extraction"
+	bad := ""
+	for _, fn := range scope {
+		eachInstr(fn, func(in ssa.Instruction) {
+			ci, ok := in.(ssa.CallInstruction)
+			if !ok {
+				return
+			}
+			f := calleeFunc(ci.Common())
+			if f == nil || f.Pkg() == nil || f.Pkg().Path() != "os" {
+				return
+			}
+			switch f.Name() {
+			case "Remove", "RemoveAll", "Rename", "Truncate":
+				bad = fmt.Sprintf("os.%s at %s in %s: extraction deletes or replaces entries it created (e.g. 'empty' directories), so the extracted tree no longer has the names of the source tree", f.Name(), c.Pos(in.Pos()), fnKey(fn))
+			}
+		})
+	}
+	r.Check(bad == "", key, "-", fmt.Sprintf("no os.Remove/RemoveAll/Rename/Truncate in %d extraction functions", len(scope)), bad)
 }
